@@ -257,6 +257,12 @@ class Interp:
             first = self._first_of_comprehension(e, st, fr)
             if first is not None:
                 return dedupe(first)
+            seqop = self._builtin_on_exact(e, st, fr)
+            if seqop is not None:
+                return dedupe(seqop)
+            lst = self._local_list_update(e, st, fr)
+            if lst is not None:
+                return dedupe(lst)
             res = d.call(self, e, st, fr)
             if res is not None:
                 return dedupe(res)
@@ -339,6 +345,9 @@ class Interp:
         if isinstance(e, ast.Lambda):
             return [val(("func", e), st)]
         if isinstance(e, (ast.ListComp, ast.SetComp, ast.GeneratorExp, ast.DictComp)):
+            eager = self._eager_comprehension(e, st, fr)
+            if eager is not None:
+                return dedupe(eager)
             v = self.domain.load_attr(["<comprehension>", e], st, fr)
             return [val(TOP if v is None else v, st)]
         if isinstance(e, ast.NamedExpr):
@@ -362,6 +371,82 @@ class Interp:
                         out.append(val(TOP if v is None else v, r.state))
             return out
         return [val(TOP, st)]
+
+    def _local_list_update(self, call, st, fr):
+        """x.append(v) / x.extend(seq) on a local that holds a list built in this frame (opt-in per domain)."""
+        if not getattr(self.domain, "track_lists", False):
+            return None
+        f = call.func
+        if not (isinstance(f, ast.Attribute) and f.attr in ("append", "extend") and isinstance(f.value, ast.Name) and len(call.args) == 1 and not call.keywords):
+            return None
+        key = fr.local(f.value.id)
+        if not st.has(key):
+            return None
+        cur = st.get(key)
+        if cur == EMPTY:
+            cur = ("tuple",)
+        if not (isinstance(cur, tuple) and cur[:1] == ("tuple",)):
+            return None
+        out = []
+        for r in self.eval(call.args[0], st, fr):
+            if r.kind == "exc":
+                out.append(r)
+                continue
+            base = r.state.get(key)
+            base = ("tuple",) if base == EMPTY else base
+            if f.attr == "append":
+                new = base + (r.value,)
+            else:
+                els = self._exact_elements(r.value)
+                new = base + tuple(els) if els is not None else TOP
+            if new != TOP and len(new) > 5:
+                new = NONEMPTY  # widening: an unboundedly growing list is just "non-empty"
+            out.append(val(NONE, r.state.set(key, new)))
+        return out
+
+    def _builtin_on_exact(self, call, st, fr):
+        """tuple(x) / list(x) / any(x) / all(x) / len(x) when x evaluates to an exact sequence."""
+        if not (isinstance(call.func, ast.Name) and call.func.id in ("tuple", "list", "any", "all", "len") and len(call.args) == 1 and not call.keywords):
+            return None
+        arg = call.args[0]
+        if not isinstance(arg, (ast.Name, ast.ListComp, ast.GeneratorExp, ast.Tuple, ast.List, ast.Call)):
+            return None
+        rs = self.eval(arg, st, fr)
+        if any(r.kind == "val" and self._exact_elements(r.value) is None for r in rs):
+            if isinstance(arg, ast.Call):
+                # the argument was evaluated (its effects are in rs): finish the call with an unknown result
+                out = []
+                for r in rs:
+                    out.append(r if r.kind == "exc" else val(self._exact_fallback(call.func.id, r.value), r.state))
+                return out
+            return None
+        out = []
+        for r in rs:
+            if r.kind == "exc":
+                out.append(r)
+                continue
+            els = self._exact_elements(r.value)
+            name = call.func.id
+            if name in ("tuple", "list"):
+                out.append(val(("tuple",) + tuple(els), r.state))
+            elif name == "len":
+                out.append(val(("const", len(els)), r.state))
+            else:
+                ts = [self.domain.truth(v) for v in els]
+                if name == "any":
+                    t = "T" if "T" in ts else ("F" if all(x == "F" for x in ts) else "TF")
+                else:
+                    t = "F" if "F" in ts else ("T" if all(x == "T" for x in ts) else "TF")
+                out.append(val({"T": TRUE, "F": FALSE}.get(t, ("bool",)), r.state))
+        return out
+
+    @staticmethod
+    def _exact_fallback(name, value):
+        if name in ("any", "all"):
+            return ("bool",)
+        if name in ("tuple", "list"):
+            return value if value in (EMPTY, NONEMPTY) else TOP
+        return TOP
 
     def _first_of_comprehension(self, call, st, fr):
         """next(<genexp>[, default]) / any(<genexp>) / all(<genexp>) over a single-generator
@@ -474,6 +559,30 @@ class Interp:
             return out
         op = e.ops[0]
         out = []
+        if isinstance(op, (ast.In, ast.NotIn)):
+            members = self._literal_members(e.comparators[0], fr)
+            if members is not None:
+                for r in self.eval(e.left, st, fr):
+                    if r.kind == "exc":
+                        out.append(r)
+                        continue
+                    l = r.value
+                    if l == NONE:
+                        hit = None in members
+                    elif l in (TRUE, FALSE):
+                        hit = (l == TRUE) in members
+                    elif isinstance(l, tuple) and len(l) == 2 and l[0] == "const":
+                        try:
+                            hit = l[1] in members
+                        except TypeError:
+                            hit = None
+                    else:
+                        hit = None
+                    if hit is None:
+                        out.append(val(("bool",), r.state))
+                    else:
+                        out.append(val(TRUE if hit == isinstance(op, ast.In) else FALSE, r.state))
+                return out
         for r in self.eval_list([e.left, e.comparators[0]], st, fr):
             if r.kind == "exc":
                 out.append(r)
@@ -484,6 +593,30 @@ class Interp:
                 t = self._default_compare(op, l, rr)
             out.append(val({"T": TRUE, "F": FALSE}.get(t, ("bool",)), r.state))
         return out
+
+    @staticmethod
+    def _const_elements(node):
+        if isinstance(node, ast.Call) and dotted(node.func) in ("frozenset", "set", "tuple", "list") and len(node.args) == 1:
+            node = node.args[0]
+        if isinstance(node, (ast.List, ast.Tuple, ast.Set)) and all(isinstance(x, ast.Constant) for x in node.elts):
+            return [x.value for x in node.elts]
+        return None
+
+    def _literal_members(self, node, fr):
+        """Python constants of a literal container, or of a module-level / class-level name bound once to one."""
+        got = self._const_elements(node)
+        if got is not None or not isinstance(node, (ast.Name, ast.Attribute)):
+            return got
+        name = node.id if isinstance(node, ast.Name) else node.attr
+        n = fr.func
+        while n is not None:
+            body = getattr(n, "body", None)
+            if isinstance(body, list) and isinstance(n, (ast.Module, ast.ClassDef)):
+                found = [s_.value for s_ in body if isinstance(s_, ast.Assign) and any(isinstance(t, ast.Name) and t.id == name for t in s_.targets)]
+                if len(found) == 1:
+                    return self._const_elements(found[0])
+            n = getattr(n, "_parent", None)
+        return None
 
     def _default_compare(self, op, l, r):
         d = self.domain
@@ -814,6 +947,10 @@ class Interp:
             if r.kind == "exc":
                 out.append(("raise", r.value, r.state))
                 continue
+            exact = self._exact_elements(r.value)
+            if exact is not None:
+                out.extend(self._for_exact(s, exact, r.state, fr))
+                continue
             kind0 = d.iter_kind(r.value)
             seen = set()
             sh = getattr(d, "for_start", None)
@@ -854,6 +991,81 @@ class Interp:
             if exits:
                 out.extend(self.exec_block(s.orelse, exits, fr) if s.orelse else [("next", None, e) for e in exits])
         return self._dd(out)
+
+    def _exact_elements(self, value):
+        """Element values of an abstract sequence whose length and order are known, else None."""
+        hook = getattr(self.domain, "iter_exact", None)
+        if hook is not None:
+            got = hook(value)
+            if got is not None:
+                return list(got)
+        if isinstance(value, tuple) and value[:1] in (("tuple",), ("lazyseq",)):
+            return list(value[1:])
+        return None
+
+    def _for_exact(self, s, elements, st, fr):
+        out = []
+        cur = [st]
+        for elv in elements:
+            nxt = []
+            for c in cur:
+                s2 = self.assign(s.target, elv, c, fr)
+                for kind, payload, s3 in self.exec_block(s.body, [s2], fr):
+                    if kind in ("next", "continue"):
+                        nxt.append(s3)
+                    elif kind == "break":
+                        out.append(("next", None, s3))
+                    else:
+                        out.append((kind, payload, s3))
+            cur = list(dict.fromkeys(nxt))
+            if not cur:
+                break
+        if cur:
+            out.extend(self.exec_block(s.orelse, cur, fr) if s.orelse else [("next", None, c) for c in cur])
+        return self._dd(out)
+
+    def _eager_comprehension(self, comp, st, fr):
+        """[elt for target in <exact sequence> if conds] -> ("tuple", v0, v1, ...); None when the
+        iterated value is not an exact sequence (the domain's <comprehension> hook decides then)."""
+        if isinstance(comp, ast.DictComp) or len(comp.generators) != 1 or comp.generators[0].is_async:
+            return None
+        gen = comp.generators[0]
+        out = []
+        for r in self.eval(gen.iter, st, fr):
+            if r.kind == "exc":
+                out.append(r)
+                continue
+            exact = self._exact_elements(r.value)
+            if exact is None:
+                return None
+            cur = [(r.state, ())]
+            for elv in exact:
+                nxt = []
+                for c, acc in cur:
+                    s2 = self.assign(gen.target, elv, c, fr)
+                    states = [s2]
+                    for cond in gen.ifs:
+                        keep = []
+                        for s3 in states:
+                            for br, s4 in self.branch(cond, s3, fr):
+                                if br == "exc":
+                                    out.append(s4)
+                                elif br:
+                                    keep.append(s4)
+                                else:
+                                    nxt.append((s4, acc))
+                        states = keep
+                    for s3 in states:
+                        for r2 in self.eval(comp.elt, s3, fr):
+                            if r2.kind == "exc":
+                                out.append(r2)
+                            else:
+                                nxt.append((r2.state, acc + (r2.value,)))
+                cur = list(dict.fromkeys(nxt))
+            tag = "lazyseq" if isinstance(comp, ast.GeneratorExp) else "tuple"
+            for c, acc in cur:
+                out.append(val((tag,) + acc, c))
+        return out
 
     def _try(self, s, st, fr):
         d = self.domain
@@ -977,9 +1189,9 @@ class Interp:
                     v = TOP
                 s0 = s0.set(fr.local(p.arg), v)
             if a.vararg:
-                s0 = s0.set(fr.local(a.vararg.arg), argvals.get("*", TOP))
+                s0 = s0.set(fr.local(a.vararg.arg), argvals.get(a.vararg.arg, argvals.get("*", TOP)))
             if a.kwarg:
-                s0 = s0.set(fr.local(a.kwarg.arg), argvals.get("**", TOP))
+                s0 = s0.set(fr.local(a.kwarg.arg), argvals.get(a.kwarg.arg, argvals.get("**", TOP)))
             if isinstance(func, ast.Lambda):
                 outs = [("raise", r.value, r.state) if r.kind == "exc" else ("return", r.value, r.state) for r in self.eval(func.body, s0, fr)]
             else:
@@ -1044,22 +1256,50 @@ class Interp:
 
     def call_function(self, f, call, st, fr, receiver=None, bind_self=True):
         """Evaluate the arguments of ``call`` and inline ``f`` with them bound to its parameters."""
-        pos = [a for a in call.args if not isinstance(a, ast.Starred)]
-        kws = [(k.arg, k.value) for k in call.keywords if k.arg is not None]
+        exprs = [a.value if isinstance(a, ast.Starred) else a for a in call.args] + [k.value for k in call.keywords]
         params = [p.arg for p in f.args.posonlyargs + f.args.args]
         if bind_self and params:
             params = params[1:]
+        kwonly = [p.arg for p in f.args.kwonlyargs]
         out = []
-        for r in self.eval_list(pos + [v for _, v in kws], st, fr):
+        for r in self.eval_list(exprs, st, fr):
             if r.kind == "exc":
                 out.append(r)
                 continue
+            posvals, kwvals, unknown_star = [], [], False
+            for a, v in zip(call.args, r.value[: len(call.args)]):
+                if isinstance(a, ast.Starred):
+                    if isinstance(v, tuple) and v[:1] == ("tuple",):
+                        posvals.extend(v[1:])
+                    else:
+                        unknown_star = True
+                else:
+                    posvals.append(v)
+            for k, v in zip(call.keywords, r.value[len(call.args):]):
+                if k.arg is not None:
+                    kwvals.append((k.arg, v))
+                elif isinstance(v, tuple) and v[:1] == ("kwdict",):
+                    kwvals.extend(v[1])
+                else:
+                    unknown_star = True
             argvals = {}
-            for i, v in enumerate(r.value[: len(pos)]):
+            for i, v in enumerate(posvals):
                 if i < len(params):
                     argvals[params[i]] = v
-            for (k, _), v in zip(kws, r.value[len(pos):]):
-                argvals[k] = v
+            extra_pos = tuple(posvals[len(params):])
+            extra_kw = []
+            for k, v in kwvals:
+                if k in params or k in kwonly:
+                    argvals[k] = v
+                else:
+                    extra_kw.append((k, v))
+            if f.args.vararg is not None:
+                argvals[f.args.vararg.arg] = TOP if unknown_star else ("tuple",) + extra_pos
+            if f.args.kwarg is not None:
+                argvals[f.args.kwarg.arg] = TOP if unknown_star else ("kwdict", tuple(extra_kw))
+            if unknown_star:
+                for p_ in params + kwonly:
+                    argvals.setdefault(p_, TOP)
             out.extend(self.inline(f, argvals, r.state, fr, receiver=receiver, is_method=bind_self))
         return out
 
